@@ -1,6 +1,6 @@
 """C02 -- transparency: a print that never touches an enabled region is forwarded verbatim (E1)."""
 from ..engine import Scenario
-from ..world import World
+from ..world import World, stays_clear
 
 NONTRIVIAL = {"verbatim:G0", "verbatim:G1", "verbatim:G2", "verbatim:G3", "verbatim:G10", "verbatim:G11",
               "verbatim:G92", "verbatim:G20", "verbatim:G21", "verbatim:G90", "verbatim:G91", "verbatim:G4",
@@ -20,6 +20,8 @@ COMMON = [("RETRACT",), ("RECOVER",), ("FWRETRACT",), ("FWRECOVER",), ("ESET0",)
 MODES = [("REL",), ("ABS",), ("INCH",), ("MM",)]
 OUT = [("TRAVEL", "O1"), ("TRAVEL", "O2"), ("PRINT", "O3"), ("PRINT", "O1"), ("WIPE", "O2"), ("TRAVEL", "N"),
        ("ARC", "clear"), ("ARC", "under")]
+AXIS = [("TRAVEL", "Org"), ("XONLY", "I1"), ("YONLY", "I1"), ("XONLY", "O2"),
+        ("AT", "ExcludeRegion", "disable"), ("AT", "ExcludeRegion", "enable")]
 IN = [("TRAVEL", "I1"), ("PRINT", "I2"), ("TRAVEL", "Bd"), ("ARC", "cross"), ("ARC", "into")]
 
 
@@ -40,6 +42,12 @@ def scenarios(tier):
                             max_states=60000 if q else 2000000))
         out.append(Scenario("c02-clear" + tag, World, dict(base, regions=["R", "D"]), OUT + COMMON,
                             max_states=60000 if q else 2000000))
+        out.append(Scenario("c02-clear-axis" + tag, World, dict(base, regions=["R"], guard=stays_clear, key_depth=False),
+                            [("TRAVEL", "O1"), ("TRAVEL", "O2"), ("PRINT", "O3"), ("TRAVEL", "N"), ("RETRACT",),
+                             ("RECOVER",)] + AXIS,
+                            max_states=60000 if q else 2000000,
+                            note="single-axis moves, the bed origin (coordinates exactly 0) and disable/enable, every "
+                                 "destination kept outside the region by the scenario guard"))
         out.append(Scenario("c02-disabled" + tag, World, dict(base, regions=["R", "D"], guard=only_first_disable),
                             [("AT", "ExcludeRegion", "disable")] + OUT[:3] + IN + COMMON[:7] + COMMON[8:11],
                             max_states=60000 if q else 2000000))
